@@ -268,11 +268,72 @@ def atoi(ctx):
     ctx.eq(R, 'commas-removed', r[-1].value if r else None, want, ctx.where(fa), 'thousands separators are removed before conversion')
 
 
+def decimal_context_untouched(ctx):
+    """The exactness of parse_humanized (Decimal numeral x power of ten, then int) holds under the thread's default decimal
+    context (28 significant digits).  Nothing in the package may change that context: one `getcontext().prec = 3` in a display
+    helper would make every later "1.2345M" parse to 1230000 (two sites that each look fine alone).  Whole-package sweep:
+    stores into attributes of decimal.getcontext(), calls of decimal.setcontext, and `decimal.getcontext().<attr> op= ...`."""
+    import ast
+    import os
+    R = 'C19.decimal-context'
+    sites = []
+    n_mod = 0
+
+    def is_getcontext(node, m):
+        if not isinstance(node, ast.Call):
+            return False
+        f = node.func
+        if isinstance(f, ast.Attribute) and f.attr == 'getcontext' and isinstance(f.value, ast.Name):
+            imp = m.imports.get(f.value.id)
+            return bool(imp) and imp[1] == 'decimal'
+        if isinstance(f, ast.Name):
+            imp = m.imports.get(f.id)
+            return bool(imp) and imp[1] in ('decimal.getcontext',)
+        return False
+
+    def is_setcontext(node, m):
+        f = node.func
+        if isinstance(f, ast.Attribute) and f.attr == 'setcontext' and isinstance(f.value, ast.Name):
+            imp = m.imports.get(f.value.id)
+            return bool(imp) and imp[1] == 'decimal'
+        if isinstance(f, ast.Name):
+            imp = m.imports.get(f.id)
+            return bool(imp) and imp[1] == 'decimal.setcontext'
+        return False
+    for name, m in sorted(ctx.repo.modules.items()):
+        n_mod += 1
+        aliases = set()          # names bound to the context object:  c = getcontext()
+        for node in ast.walk(m.tree):
+            if isinstance(node, ast.Assign) and is_getcontext(node.value, m):
+                aliases.update(t.id for t in node.targets if isinstance(t, ast.Name))
+        for node in ast.walk(m.tree):
+            targets = []
+            if isinstance(node, ast.Assign):
+                targets = node.targets
+            elif isinstance(node, (ast.AugAssign, ast.AnnAssign)):
+                targets = [node.target]
+            for t in targets:
+                if isinstance(t, ast.Attribute) and (is_getcontext(t.value, m) or (isinstance(t.value, ast.Name) and t.value.id in aliases)):
+                    sites.append((m, node, f'decimal context attribute {t.attr} assigned'))
+            if isinstance(node, ast.Call) and is_setcontext(node, m):
+                sites.append((m, node, 'decimal.setcontext called'))
+    if not sites:
+        ctx.ok(R, 'package-wide', '', found=f'0 writes to the decimal context in {n_mod} modules', expected='none',
+               reason='the exact Decimal arithmetic of parse_humanized relies on the default context precision')
+    for m, node, what in sites:
+        ctx.bad(R, 'context-write', f'{os.path.relpath(m.path, ctx.repo.root)}:{node.lineno} {m.name}', found=what,
+                expected='no code of the package changes the thread-wide decimal context (use decimal.localcontext() for display rounding)',
+                reason='after this statement has run, unit-suffixed coordinates with more significant digits than the new precision '
+                       'are rounded by parse_humanized: "1.2345M" no longer parses to 1234500',
+                key=f'{R}|{m.name}|{what}')
+
+
 _run_core = run
 
 
 def run(ctx):
     _run_core(ctx)
+    decimal_context_untouched(ctx)
     from . import refs_misc
     refs_misc.run_for(ctx, 'C19')
     from . import reflib
